@@ -143,7 +143,18 @@ def run_case(case):
             from dataclass_wizard import JSONWizard
             bases = (JSONWizard,)
         cls = build(case['cls'], registry, bases=bases)
-        if case.get('pre') == 'dump':
+        pre = case.get('pre') or {}
+        if isinstance(pre, str):
+            pre = {'dump': pre == 'dump', 'alone': {}}
+        for f in case['cls']['fields']:
+            if f['kind'] == 'nested' and f['name'] in (pre.get('alone') or {}):
+                # history: the nested class is used ALONE first (default engine, its own default policy)
+                from dataclass_wizard import fromdict
+                try:
+                    fromdict(registry[f['cls']['name']], pre['alone'][f['name']])
+                except Exception:
+                    pass
+        if pre.get('dump'):
             # history: the class is DUMPED (instance built by hand) before anything is loaded
             from dataclass_wizard import asdict
             inst = construct(case['cls'], registry)
@@ -187,7 +198,36 @@ def run_witness(w):
             dropped = (a.extras != {'<-|CatchAll|->': 5})
         except BaseException as e:
             dropped = True
-        return {'with_default': r, 'no_default_dropped': dropped}
+        # variant c: a class WITHOUT CatchAll that once saw the key (ignore policy) caches marker -> ExplicitNull; the next
+        # loader generated for that class (nested under an outer class) crashes with AttributeError
+        @dataclasses.dataclass
+        class PI:
+            a: int
+
+        @dataclasses.dataclass
+        class PO:
+            inner: PI
+        fromdict(PI, {'a': 1, '<-|CatchAll|->': 5})
+        r2 = outcome(fromdict, PO, {'inner': {'a': 2}})
+        return {'with_default': r, 'no_default_dropped': dropped, 'poisoned': 'ok' not in r2, 'poisoned_outcome': r2}
+    if w['kind'] == 'F10alone':
+        from dataclass_wizard import fromdict, LoadMeta
+        from dataclass_wizard.errors import UnknownKeysError
+
+        @dataclasses.dataclass
+        class AInner:
+            a: int
+
+        @dataclasses.dataclass
+        class AOuter:
+            b: int
+            inner: AInner
+        fromdict(AInner, {'a': 7, 'seen': 3})
+        LoadMeta(raise_on_unknown_json_key=True).bind_to(AOuter)
+        r_seen = outcome(fromdict, AOuter, {'b': 1, 'inner': {'a': 2, 'seen': 3}})
+        r_new = outcome(fromdict, AOuter, {'b': 1, 'inner': {'a': 2, 'bogus': 3}})
+        return {'seen_key_accepted': 'ok' in r_seen,
+                'unseen_key_rejected': r_new.get('err') == 'UnknownKeysError' and str(r_new.get('class_name')).endswith('AInner')}
     return {'error': 'unknown witness kind'}
 
 
